@@ -80,6 +80,9 @@ def _compare_traj(rec, tag, A, wa, B, wb, T):
     if why:
       rec.count("ungated_" + why)
       return t, "ungated"
+    if meta.diverged(oa, wa, ob, wb):
+      rec.count("ungated_diverged_world")
+      return t, "ungated"
     ctx = f"{tag} step {t}"
     c1 = meta.compare_obs(rec, ctx, oa, ob, wa, wb, tol_viol=SV["v"])
     c2 = meta.compare_contacts(rec, ctx, A[t]["con"][wa], B[t]["con"][wb], tol_viol=SV["v"])
